@@ -101,6 +101,14 @@ def body_inflated(p, lens):
     return body_fwd(inflate(list(p), list(lens)), [list(p), list(lens)])
 
 
+def body_star(k):
+    return body_fwd(star(k), ["star", k])
+
+
+def body_concat(a, b):
+    return body_fwd(concat(list(a), list(b)), ["concat", list(a), list(b)])
+
+
 def body_rev(p, lv):
     """converse: balanced dot-bracket (pairing + level per pair, same level => non-crossing)
     -> from_dotbracket -> back; the pair set is preserved"""
@@ -330,7 +338,7 @@ def run(rep, tier):
     parts.sort(key=lambda x: -(x.expected or 0))
     e1.run("harness.c01", parts, per_condition_timeout=T)
     from harness import pairing_driver as pd
-    fam = [("padded", n, 12) for n in (4, 5, 6)] + [("interleaved", n) for n in (4, 5, 6)] + [("inflated", 6, 3, 2)]
+    fam = [("padded", n, 12) for n in (4, 5, 6)] + [("interleaved", n) for n in (4, 5, 6)] + [("inflated", 6, 3, 2), ("star", 7), ("concat", 6, 5)]
     if tier != "quick":
         fam += [("inflated", 8, 4, 2), ("inflated", 7, 3, 3)]
     parts += pd.run_families(rep, "harness.c01", fam, body_inflated="body_inflated")
